@@ -48,3 +48,119 @@ func H_Opts(p []int) {
 	vAssert(A.Within(X) == B.Within(X), "C08.within")
 	vCover("opts.done")
 }
+
+// vDocs: concrete documents for H_ParseOpts (every standard type, empties, nesting, foreign members, a Circle
+// feature, rectangle-shaped polygons, and documents whose objects report themselves invalid)
+var vDocs = [...]string{
+	0:  `{"type":"Point","coordinates":[1,2]}`,
+	1:  `{"type":"Point","coordinates":[1,2,3],"id":7}`,
+	2:  `{"type":"Point","coordinates":[200,2]}`,
+	3:  `{"type":"LineString","coordinates":[[0,0],[2,1],[4,0]]}`,
+	4:  `{"type":"LineString","coordinates":[[0,0],[2,100],[4,0]]}`,
+	5:  `{"type":"Polygon","coordinates":[[[0,0],[4,0],[4,4],[0,4],[0,0]]]}`,
+	6:  `{"type":"Polygon","coordinates":[[[0,0],[8,0],[8,8],[0,8],[0,0]],[[2,2],[4,2],[3,4],[2,2]]]}`,
+	7:  `{"type":"Polygon","coordinates":[[[0,0],[200,0],[200,4],[0,4],[0,0]]]}`,
+	8:  `{"type":"Polygon","coordinates":[[[0,0],[4,0],[4,4],[-1,4],[0,0]]]}`,
+	9:  `{"type":"Polygon","coordinates":[[[0,0],[4,0],[4,4],[0,4],[0,0]]],"bbox":[0,0,4,4]}`,
+	10: `{"type":"Feature","geometry":{"type":"Point","coordinates":[1,2]},"properties":{"type":"Circle","radius":1000,"radius_units":"m"}}`,
+	11: `{"type":"Feature","geometry":{"type":"Polygon","coordinates":[[[0,0],[4,0],[4,4],[0,4],[0,0]]]},"id":"a","properties":{"k":[1, 2]}}`,
+	12: `{"type":"MultiPoint","coordinates":[[1,2],[3,1],[2,5]]}`,
+	13: `{"type":"MultiPoint","coordinates":[[1,2],[300,1]]}`,
+	14: `{"type":"MultiLineString","coordinates":[[[0,0],[2,1]],[[4,0],[4,3],[6,3]]]}`,
+	15: `{"type":"MultiPolygon","coordinates":[[[[0,0],[4,0],[4,4],[0,4],[0,0]]],[[[6,0],[9,0],[8,3],[6,0]]]]}`,
+	16: `{"type":"MultiPolygon","coordinates":[[[[0,0],[4,0],[4,4],[0,4],[0,0]]],[[[6,0],[9,0],[8,95],[6,0]]]]}`,
+	17: `{"type":"GeometryCollection","geometries":[{"type":"MultiPoint","coordinates":[]},{"type":"Point","coordinates":[5,5]},{"type":"LineString","coordinates":[[0,0],[2,1],[4,0]]}]}`,
+	18: `{"type":"FeatureCollection","features":[{"type":"Feature","geometry":{"type":"Point","coordinates":[1,2]},"properties":{}},{"type":"Feature","geometry":{"type":"Polygon","coordinates":[[[0,0],[4,0],[4,4],[0,4],[0,0]]]},"properties":{"a":1}}],"name":"x"}`,
+	19: `{"type":"FeatureCollection","features":[{"type":"Feature","geometry":{"type":"Point","coordinates":[1,2]}},{"type":"Feature","geometry":{"type":"Point","coordinates":[1,200]}}]}`,
+	20: `{"type":"Point","coordinates":[1,2],"a\u0007\u000bb":{"x": "\u007f"},"é":null}`,
+	21: `{"type":"Polygon","coordinates":[[[0,0],[9,0],[9,9],[0,9],[0,0]],[[1,1],[3,1],[3,3],[1,3],[1,1]],[[5,5],[7,5],[6,7],[5,5]]],"foo":"bar"}`,
+}
+
+func vParseOptsSym(tag string, n, ig, kind int) *ParseOptions {
+	o := &ParseOptions{}
+	switch vI(tag+".ic", 0, 3) {
+	case 0:
+		o.IndexChildren = 0
+	case 1:
+		o.IndexChildren = 1
+	case 2:
+		o.IndexChildren = 2
+	default:
+		o.IndexChildren = 64
+	}
+	switch ig {
+	case 0:
+		o.IndexGeometry = 0
+	case 1:
+		o.IndexGeometry = 1
+	case 2:
+		o.IndexGeometry = n
+	case 3:
+		o.IndexGeometry = n + 1
+	default:
+		o.IndexGeometry = 64
+	}
+	o.IndexGeometryKind = vGKind(kind)
+	o.RequireValid = vB(tag + ".requireValid")
+	o.AllowSimplePoints = vB(tag + ".simplePoints")
+	o.AllowRects = vB(tag + ".rects")
+	return o
+}
+
+func vIsCircle(o Object) bool {
+	_, ok := o.(*Circle)
+	return ok
+}
+
+// H_ParseOpts: params doc (index into vDocs), probe (0 point, 1 two-point line, 2 rect), n (size used for the
+// thresholds n, n+1), ig (IndexGeometry: 0, 1, n, n+1, 64), kind (IndexGeometryKind). The document and the
+// geometry-index options are concrete (enumerated by the driver); IndexChildren, every boolean option of the first
+// parse and the probe are symbolic; the second parse uses fixed baseline options (no index, no representation
+// option, no validation).
+func H_ParseOpts(p []int) {
+	doc, probe, n := vDocs[p[0]], p[1], p[2]
+	oa := vParseOptsSym("a", n, p[3], p[4])
+	dc := vB("disableCircle")
+	oa.DisableCircleType = dc
+	base := &ParseOptions{IndexGeometryKind: geometry.None, DisableCircleType: dc}
+	B, eb := Parse(doc, base)
+	vAssert(eb == nil, "C08.base-accepted")
+	if eb != nil {
+		return
+	}
+	A, ea := Parse(doc, oa)
+	if ea != nil {
+		vAssert(oa.RequireValid, "C08.rejected-only-under-require-valid")
+		vAssert(!B.Valid(), "C08.rejected-only-when-invalid")
+		vCover("parseopts.rejected")
+		return
+	}
+	if oa.RequireValid {
+		vAssert(B.Valid(), "C08.require-valid-rejects-invalid")
+		vAssert(A.Valid(), "C08.returned-under-require-valid-is-valid")
+	}
+	var X Object
+	switch probe {
+	case 0:
+		X = NewPoint(vGPoint("q", 0))
+	case 1:
+		X = NewLineString(geometry.NewLine(vGPoints("q", 2), vNoIdx))
+	default:
+		X = NewRect(geometry.Segment{A: vGPoint("q", 0), B: vGPoint("q", 1)}.Rect())
+	}
+	vAssert(vIsCircle(A) == vIsCircle(B), "C08.circle-recognised")
+	if !oa.AllowRects && !oa.AllowSimplePoints {
+		// the representation options promise identical JSON and predicate answers only
+		vAssert(A.Rect() == B.Rect(), "C08.parse.rect")
+		vAssert(A.Empty() == B.Empty(), "C08.parse.empty")
+		vAssert(A.Valid() == B.Valid(), "C08.parse.valid")
+		vAssert(A.NumPoints() == B.NumPoints(), "C08.parse.num-points")
+	}
+	vAssert(A.JSON() == B.JSON(), "C08.parse.json")
+	vAssert(A.Contains(X) == B.Contains(X), "C08.parse.contains")
+	vAssert(A.Intersects(X) == B.Intersects(X), "C08.parse.intersects")
+	vAssert(X.Within(A) == X.Within(B), "C08.parse.within-arg")
+	vAssert(X.Intersects(A) == X.Intersects(B), "C08.parse.intersects-arg")
+	vAssert(A.Within(X) == B.Within(X), "C08.parse.within")
+	vCover("parseopts.done")
+}
